@@ -2943,7 +2943,8 @@ macro_rules! mat_impl_mat4 {
                     viewport.h / delta.y,
                     T::one()
                 );
-                Self::scaling_3d(sc) * Self::translation_3d(tr)
+                // GLM: translate(I, tr) then scale(.., sc), i.e. T * S (scale the clip position, then offset it).
+                Self::translation_3d(tr) * Self::scaling_3d(sc)
             }
 
             /// Projects a world-space coordinate into screen space,
